@@ -22,8 +22,9 @@ SPEC = os.path.join(vlib.SPEC, "mmatch")
 
 # (cfg, module, exports pairs?)
 QUICK = [("MC_q_res", True), ("MC_q_ep", True), ("MC_q_grp", True), ("MC_q_zero", True), ("MC_q_act", False)]
-THOROUGH = QUICK + [("MC_t_u3r3c4", True), ("MC_t_u3r4c2", False), ("MC_t_ep", True), ("MC_t_grp2", True),
-                    ("MC_t_grp3", True), ("MC_t_zero", False), ("MC_t_u2r4c4", False), ("MC_t_u3r4c4", False)]
+THOROUGH = [("MC_q_ep", True), ("MC_q_zero", True), ("MC_t_act", False), ("MC_t_res", True), ("MC_t_grp", True),
+            ("MC_t_u3r3c4", True), ("MC_t_u3r4c2", False), ("MC_t_ep", True), ("MC_t_grp2", True),
+            ("MC_t_grp3", True), ("MC_t_zero", False), ("MC_t_u2r4c4", False), ("MC_t_u3r4c4", False)]
 
 _RE_BAD = re.compile(r'^<<"BAD", "(\w+)", (\d+)>>$', re.M)
 _RE_DRIFT = re.compile(r'^<<"DRIFTLINE", (\d+)>>$', re.M)
@@ -31,12 +32,33 @@ _RE_MSPACE = re.compile(r'<<"MSPACE", (\d+)>>')
 _RE_CEX = re.compile(r'^<<"COUNTEREXAMPLE", (".*")>>$', re.M)
 
 
-def _cfg_with_seed(cfg, seed):
-    """The cfg text with SampleRes derived from the seed (SampleRes < SampleMod)."""
+def tlc(*a, **kw):
+    """vlib.tlc, retried when the JVM ends abnormally (no "Finished in", no TLC error message): on the shared box
+    TLC processes are occasionally killed from outside (memory pressure, other jobs' clean-up)."""
+    for attempt in (1, 2, 3):
+        r = vlib.tlc(*a, **kw)
+        if "Finished in" in r.out or "Error:" in r.out or attempt == 3:
+            return r
+        vlib.log("[C10] TLC ended abnormally (rc=%s, %d bytes of output), retrying (%d/2)" % (r.rc, len(r.out), attempt))
+    return r
+
+
+def _cfg_with_seed(cfg, seed, slice_mod=1):
+    """The cfg text with SampleRes (and, for a sliced run, SliceRes) derived from the seed."""
     text = open(os.path.join(SPEC, cfg + ".cfg")).read()
     m = re.search(r"SampleMod = (\d+)", text)
     mod = int(m.group(1)) if m else 1
-    return re.sub(r"SampleRes = \d+", "SampleRes = %d" % (seed % mod), text)
+    text = re.sub(r"SampleRes = \d+", "SampleRes = %d" % (seed % mod), text)
+    text = re.sub(r"SliceMod = \d+", "SliceMod = %d" % slice_mod, text)
+    return re.sub(r"SliceRes = \d+", "SliceRes = %d" % (seed % slice_mod), text)
+
+
+# the two largest configurations: pairs they enumerate, and the wall-clock budget each may use. Their SliceMod is
+# chosen from the pair rate measured on this machine in this run (1 = exhaustive, which is what an otherwise idle
+# 16-core box gets); a loaded box judges a seeded 1/SliceMod share of the chain states (against EVERY manifest) and
+# the evidence says so.
+HEAVY = {"MC_t_u2r4c4": 21920000, "MC_t_u3r4c4": 89200000}
+HEAVY_BUDGET_S = 420
 
 
 def _exported(out):
@@ -56,18 +78,28 @@ def j1(tier, seed, cov):
     seen, pairs, cex = set(), [], []
     states = transitions = pair_evals = 0
     configs = {}
+    rate = None   # pairs per second, measured on the larger configurations of this run
     for cfg, _exports in cfgs:
         name = "seeded_" + cfg + ".cfg"
         t0 = time.time()
-        r = vlib.tlc(SPEC, "MCMatch", name, extra_files={name: _cfg_with_seed(cfg, seed)},
-                     timeout=1500 if tier == "quick" else 3000)
+        slice_mod = 1
+        if cfg in HEAVY and rate:
+            slice_mod = max(1, int(-(-HEAVY[cfg] // (rate * HEAVY_BUDGET_S))))
+        r = tlc(SPEC, "MCMatch", name, extra_files={name: _cfg_with_seed(cfg, seed, slice_mod)}, heap="6g",
+                timeout=1500 if tier == "quick" else 3000)
         for txt in _RE_CEX.findall(r.out):
             cex.append(json.loads(txt))
         if not r.ok and not cex:
             vlib.tlc_require_ok(r, "J1 " + cfg)
         m = _RE_MSPACE.search(r.out)
         msp = int(m.group(1)) if m else 1
-        n_pairs = r.distinct * msp if m else r.distinct
+        judged_states = r.out.count('"EVAL"') if slice_mod > 1 else r.distinct
+        n_pairs = judged_states * msp if m else r.distinct
+        if m and n_pairs > 500000 and slice_mod == 1 and "focus" not in open(os.path.join(SPEC, cfg + ".cfg")).read():
+            rr = n_pairs / max(1.0, time.time() - t0 - 3)
+            rate = rr if rate is None else max(rate, rr)
+        if slice_mod > 1:
+            cov["exhaustive"] = False
         states += r.distinct
         transitions += r.generated
         pair_evals += n_pairs
@@ -79,19 +111,21 @@ def j1(tier, seed, cov):
                 got += 1
         configs[cfg] = {"distinct_states": r.distinct, "generated": r.generated, "manifest_space": msp if m else None,
                         "pairs_checked": n_pairs, "pairs_exported": got, "wall_s": round(time.time() - t0, 1),
+                        "slice": "1/%d of the chain states (seeded), every manifest" % slice_mod if slice_mod > 1 else "all",
                         "ok": r.ok}
-        vlib.log("[C10] J1 %-12s states=%d pairs=%d exported=%d %.1fs %s" % (
-            cfg, r.distinct, n_pairs, got, time.time() - t0, "ok" if r.ok else "COUNTEREXAMPLE"))
+        vlib.log("[C10] J1 %-12s states=%d pairs=%d exported=%d %.1fs %s%s" % (
+            cfg, r.distinct, n_pairs, got, time.time() - t0, "ok" if r.ok else "COUNTEREXAMPLE",
+            " (slice 1/%d)" % slice_mod if slice_mod > 1 else ""))
     # derived manifests (split / merge / reorder / slightly alter): exhaustive small, simulation large
     t0 = time.time()
-    r = vlib.tlc(SPEC, "MCDerive", "MC_drv_small.cfg", timeout=900)
+    r = tlc(SPEC, "MCDerive", "MC_drv_small.cfg", timeout=900)
     vlib.tlc_require_ok(r, "J1 MC_drv_small")
     configs["MC_drv_small"] = {"distinct_states": r.distinct, "generated": r.generated, "wall_s": round(time.time() - t0, 1), "ok": True}
     states += r.distinct
     transitions += r.generated
     t0 = time.time()
     n_sim = 12 if tier == "quick" else 150
-    r = vlib.tlc(SPEC, "MCDerive", "MC_drv_sim.cfg", workers=1, timeout=1500, simulate=dict(num=n_sim, depth=40, seed=seed))
+    r = tlc(SPEC, "MCDerive", "MC_drv_sim.cfg", workers=1, timeout=1500, simulate=dict(num=n_sim, depth=40, seed=seed))
     vlib.tlc_require_ok(r, "J1 MC_drv_sim (simulation)")
     m = re.search(r"(\d+) states checked", r.out)
     sim_states = int(m.group(1)) if m else 0
@@ -107,14 +141,14 @@ def j1(tier, seed, cov):
         configs["MC_drv_small"]["distinct_states"], n_sim, sim_states, got))
     # the version gate
     t0 = time.time()
-    r = vlib.tlc(SPEC, "MCGate", "MC_gate.cfg", timeout=900)
+    r = tlc(SPEC, "MCGate", "MC_gate.cfg", timeout=900)
     vlib.tlc_require_ok(r, "J1 MC_gate")
     configs["MC_gate"] = {"distinct_states": r.distinct, "generated": r.generated, "wall_s": round(time.time() - t0, 1), "ok": True}
     states += r.distinct
     transitions += r.generated
     if tier == "thorough":   # non-vacuity: "the gate never accepts" must be refuted by TLC
         for vac in ("MC_gate_vac1.cfg", "MC_gate_vac2.cfg"):
-            rv = vlib.tlc(SPEC, "MCGate", vac, timeout=900)
+            rv = tlc(SPEC, "MCGate", vac, timeout=900)
             if rv.ok or rv.kind != "invariant":
                 raise vlib.Inconclusive("vacuity witness %s was not refuted: the gate spec accepts nothing" % vac)
         configs["MC_gate"]["vacuity_witnesses_refuted"] = 2
@@ -138,7 +172,7 @@ def j2(vh, pairs, work, seed, n_gate, n_hash, perms):
     obs = os.path.join(work, "obs.ndjson")
     summ = os.path.join(work, "summary.json")
     rc, out = vlib.run([vh, "mmatch", "run", "-in", inp, "-out", obs, "-summary", summ, "-seed", str(seed),
-                        "-gate", str(n_gate), "-hash", str(n_hash), "-perms", str(perms)], timeout=1500)
+                        "-gate", str(n_gate), "-hash", str(n_hash), "-perms", str(perms), "-sdlroot", vlib.REPO], timeout=1500)
     if rc != 0:
         raise vlib.Inconclusive("harness failed (rc=%d):\n%s" % (rc, out[-3000:]))
     return inp, obs, json.load(open(summ))
@@ -148,12 +182,8 @@ J3_CHUNK = 45000   # observations per TLC run (a 55k-line trace costs TLC about 
 
 
 def _j3_one(trace_path, timeout):
-    for attempt in (1, 2):
-        r = vlib.tlc(SPEC, "ManifestMatchTrace", "ManifestMatchTrace.cfg", workers=4, timeout=timeout, heap="10g",
-                     copy_files={"trace.ndjson": trace_path}, extra_args=["-continue"])
-        if "Finished in" in r.out or attempt == 2:
-            break
-        vlib.log("[C10] J3: TLC ended abnormally (rc=%s), retrying once" % r.rc)   # e.g. killed under memory pressure
+    r = tlc(SPEC, "ManifestMatchTrace", "ManifestMatchTrace.cfg", workers=4, timeout=timeout, heap="10g",
+            copy_files={"trace.ndjson": trace_path}, extra_args=["-continue"])
     bad = [(m.group(1), int(m.group(2))) for m in _RE_BAD.finditer(r.out)]
     drift = sorted({int(m.group(1)) for m in _RE_DRIFT.finditer(r.out)})
     # with -continue TLC goes on after a violated invariant and still ends with "No error has been found"
@@ -364,6 +394,7 @@ def run(pid, tier, seed, replay):
         "pairs_replayed": summ["pairs"], "pair_evaluations": summ["pair_evals"], "schemes": 6,
         "accepted_pairs": summ["accepted_pairs"], "resrej_pairs": summ["resrej_pairs"],
         "gate_pairs": summ["gate_pairs"], "gate_submits": summ["gate_submits"], "gate_accepted": summ["gate_accepted"],
+        "sdl_files": summ.get("sdl_files", 0), "sdl_real_pairs": summ.get("sdl_pairs", 0), "sdl_real_pairs_accepted": summ.get("sdl_accepted", 0),
         "hash_bases": summ["hash_bases"], "hash_lines": summ["hash_lines"], "hash_mutants": summ["hash_mutants"],
         "hash_field_sites": summ.get("sites"), "hash_opaque_fields": summ.get("opaque") or [],
         "drift_steps": len(drift),
